@@ -22,7 +22,17 @@ ALL="C01 C02 C03 C04 C05 C06 C07 C08 C09 C10 C11 C12 C13 C14 C15 C16 C17 C18 C19
 #   atc0|atc1   GODEBUG=asynctimerchan=0|1 (Go 1.23 timer semantics on/off; the monitors' module
 #               says go 1.21, so atc1 is the default)
 #   anything else is interpreted by the monitor itself (which part of its workload to run)
+# Properties whose monitor also builds and runs as a 32-bit (GOARCH=386) binary: one more variant
+# in the thorough tier (and in the quick tier where it is cheap and the code is full of atomics).
+ARCH386_THOROUGH="C06 C07 C08 C09 C10 C11 C12 C15 C16 C17 C18 C20"
+ARCH386_QUICK="C18"
 variants() {
+  local base; base=$(variants_base "$1" "$2")
+  case " $ARCH386_THOROUGH " in *" $1 "*) [ "$2" = thorough ] && base="$base 386" ;; esac
+  case " $ARCH386_QUICK " in *" $1 "*) [ "$2" = quick ] && base="$base 386" ;; esac
+  echo "$base"
+}
+variants_base() {
   local prop=$1 tier=$2
   case "$prop:$tier" in
     C01:quick)     echo "seq race:conc" ;;
@@ -65,6 +75,10 @@ build() { # build <prop> <race|norace>
   mkdir -p .build/bin
   if [ "$kind" = race ]; then
     go build $MODFLAG -tags verif -race -o "$out" "$pkg"
+  elif [ "$kind" = 386 ]; then
+    # 32-bit build of the library and the monitor (int is 32 bits, 64-bit atomics need alignment);
+    # the race detector does not exist for this target
+    GOARCH=386 go build $MODFLAG -tags verif -o "$out" "$pkg"
   else
     go build $MODFLAG -tags verif -o "$out" "$pkg"
   fi
@@ -74,7 +88,7 @@ if [ "${1:-}" = "--build-all" ]; then
   rc=0
   for p in $ALL; do
     [ -d "mon/$(echo "$p" | tr 'A-Z' 'a-z')" ] || continue
-    kinds=$( (variants "$p" quick; echo; variants "$p" thorough) | tr ' ' '\n' | awk '/(^|:)race(:|$)/{print "race"; next} NF{print "norace"}' | sort -u)
+    kinds=$( (variants "$p" quick; echo; variants "$p" thorough) | tr ' ' '\n' | awk '/(^|:)race(:|$)/{print "race"; next} /(^|:)386(:|$)/{print "386"; next} NF{print "norace"}' | sort -u)
     for k in $kinds; do
       build "$p" "$k" || { echo "build of $p ($k) failed"; rc=2; }
     done
@@ -112,10 +126,11 @@ rm -rf "$RUN"; mkdir -p "$RUN" "$REPLAYDIR" evidence
 trap 'rm -rf "$RUN"' EXIT
 
 # Build what is needed, from /repo's current working tree.
-need_race=0; need_norace=0
+need_race=0; need_norace=0; need_386=0
 for v in $VARS; do
-  case ":$v:" in *:race:*) need_race=1 ;; *) need_norace=1 ;; esac
+  case ":$v:" in *:race:*) need_race=1 ;; *:386:*) need_386=1 ;; *) need_norace=1 ;; esac
 done
+if [ $need_386 = 1 ]; then build "$PROP" 386 || { echo "MACHINERY-ERROR property=$PROP build failed (386)"; exit 2; }; fi
 if [ $need_race = 1 ]; then build "$PROP" race || { echo "MACHINERY-ERROR property=$PROP build failed (race)"; exit 2; }; fi
 if [ $need_norace = 1 ]; then build "$PROP" norace || { echo "MACHINERY-ERROR property=$PROP build failed"; exit 2; }; fi
 
@@ -126,7 +141,7 @@ parts=""
 for v in $VARS; do
   i=$((i+1))
   kind=norace
-  case ":$v:" in *:race:*) kind=race ;; esac
+  case ":$v:" in *:race:*) kind=race ;; *:386:*) kind=386 ;; esac
   gmp=""; godebug=""
   for w in $(echo "$v" | tr ':' ' '); do
     case "$w" in
